@@ -30,6 +30,7 @@ struct Interpose {
   // same selection of fds; return an errno (>0) to make the write(2) fail instead of being performed
   std::function<int(const std::string& path, const std::string& data)> onWriteErr;
   std::string kmsgPath;
+  bool openIsRelative{false}; // set around onOpen: the open in progress names its file relative to a directory fd
   bool clearDType{false}; // readdir reports DT_UNKNOWN (file systems without d_type)
   bool logXattr{false};
   bool active{false}; // master switch; off = plain pass-through
